@@ -208,6 +208,7 @@ def _public_part(chk, part):
                         kl = kle.SampledKLEnergy(W.x, H, 1, None, mirror_samples=mirror, constants=list(consts), point_estimates=list(pes))
                     finally:
                         ift.random.pop_sseq()
+                    ExactCG.discharge(chk, lab)
                     inv = set(consts) & set(pes)
                     var = tuple(k for k in KEYS if k not in consts)
                     ok = set(kl.position.keys()) == set(var)
